@@ -312,6 +312,19 @@ func (t *tracer) trace(v ssa.Value, ctx []callCtx, depth int, prefix string) {
 					return
 				}
 			}
+			if fa, ok := a.X.(*ssa.FieldAddr); ok {
+				// an element of an array-typed field (node.Range[1]): named by the field and, when constant, the index
+				idx := "?"
+				if n, ok := constInt(a.Index); ok {
+					idx = fmt.Sprint(n)
+				}
+				tn := "?"
+				if n := namedOf(fa.X.Type()); n != nil {
+					tn = n.Obj().Name()
+				}
+				t.emit(prefix, "elem["+idx+"]-of field:"+tn+"."+fieldOf(fa).Name())
+				return
+			}
 			t.trace(a.X, ctx, depth+1, prefix+"elem-of ")
 		case *ssa.Alloc:
 			sts := storesTo(a)
